@@ -1,8 +1,96 @@
 import Ypv.Drv.Codec
-/-! Driver handler for C12 (stub: replaced by the module that models C12) -/
+import Ypv.Model.Compare
+/-! Driver handler for C12: typed values, `str()`, `search_matches`, the inversion scan. -/
 namespace Ypv.Drv.C12
 open Lean (Json)
+open Ypv Ypv.Drv
 
-def handle (_op : String) (_j : Json) : Except String Json := throw "C12: driver not implemented yet"
+def typedToJson : Typed → Json
+  | .null => Json.mkObj [("k", "null")]
+  | .bool b => Json.mkObj [("k", "bool"), ("v", .bool b)]
+  | .int i => Json.mkObj [("k", "int"), ("v", toString i)]
+  | .float m e => Json.mkObj [("k", "float"), ("m", toString m), ("e", Json.num (Lean.JsonNumber.fromInt e))]
+  | .text s => Json.mkObj [("k", "text"), ("v", l2s s)]
+  | .unmodelled => Json.mkObj [("k", "unmodelled")]
+
+def kindName : Typed → String
+  | .null => "null" | .bool _ => "bool" | .int _ => "int" | .float .. => "float"
+  | .text _ => "text" | .unmodelled => "unmodelled"
+
+/-- The regex oracle from a table `[[pattern, text, true|false|null], …]`; a pair that is not in
+the table is a protocol error (reported through `missing`). -/
+def rxTable (j : Json) : List (Str × Str × Option Bool) :=
+  match j.getObjVal? "rx" with
+  | .ok (.arr rows) => rows.toList.filterMap (fun r =>
+      match r with
+      | .arr #[.str p, .str t, .bool b] => some (s2l p, s2l t, some b)
+      | .arr #[.str p, .str t, .null] => some (s2l p, s2l t, none)
+      | _ => none)
+  | _ => []
+
+def rxOf (tbl : List (Str × Str × Option Bool)) (p t : Str) : Option Bool :=
+  match tbl.find? (fun r => r.1 = p && r.2.1 = t) with
+  | some r => r.2.2
+  | none => none
+
+def rxHas (tbl : List (Str × Str × Option Bool)) (p t : Str) : Bool :=
+  (tbl.find? (fun r => r.1 = p && r.2.1 = t)).isSome
+
+def outToJson : Except Err Bool → Json
+  | .ok b => Json.mkObj [("ok", .bool b)]
+  | .error e => Json.mkObj [("err", errToJson e)]
+
+def specToJson : Option Bool → Json
+  | some b => Json.mkObj [("ok", .bool b)]
+  | none => Json.mkObj [("none", .bool true)]
+
+def natsToJson (l : List Nat) : Json := Json.arr (l.map (fun n => Json.num (Lean.JsonNumber.fromNat n))).toArray
+
+def scalarsOf (j : Json) (k : String) : Except String (List Scalar) := do
+  (← getArr j k).toList.mapM scalarOfJson
+
+def handle (op : String) (j : Json) : Except String Json := do
+  match op with
+  | "typed" =>
+    -- {"t": text} ↦ typed_value(text) and its str()
+    let t := s2l (← getStr j "t")
+    let ty := typedValue t
+    pure (Json.mkObj [("typed", typedToJson ty), ("str", l2s ty.pyStr)])
+  | "text" =>
+    -- {"h": scalar} ↦ str(typed_value(h)) (the text the regex / prefix tests act on), str(h)
+    let h ← scalarOfJson (← j.getObjVal? "h")
+    let ty := typedOfScalar h
+    pure (Json.mkObj [("typed", typedToJson ty), ("text", l2s (pyStr h))])
+  | "match" =>
+    -- {"m": METHOD, "h": scalar, "t": term, "rx": table} ↦ model and specification answers
+    let m ← methodOfName (← getStr j "m")
+    let h ← scalarOfJson (← j.getObjVal? "h")
+    let t := s2l (← getStr j "t")
+    let tbl := rxTable j
+    if m = .regex && !(rxHas tbl t (pyStr h)) && (typedOfScalar h) ≠ .unmodelled
+        && typedValue t ≠ .unmodelled then
+      throw s!"regex oracle has no answer for pattern {l2s t} on text {l2s (pyStr h)}"
+    pure (Json.mkObj [("model", outToJson (searchMatches (rxOf tbl) m h t)),
+                      ("spec", specToJson (Spec.matches (rxOf tbl) m h t)),
+                      ("hk", kindName (typedOfScalar h)), ("tk", kindName (typedValue t))])
+  | "match2" =>
+    -- scalar needle, as the keyword searches call it
+    let m ← methodOfName (← getStr j "m")
+    let h ← scalarOfJson (← j.getObjVal? "h")
+    let n ← scalarOfJson (← j.getObjVal? "n")
+    pure (Json.mkObj [("model", outToJson (searchMatchesScalar (rxOf (rxTable j)) m h n))])
+  | "scan" =>
+    -- {"site": "list"|"seq", "inv", "m", "t", "c": [scalar…], "rx"} ↦ yielded positions + error
+    let m ← methodOfName (← getStr j "m")
+    let inv ← getBool j "inv"
+    let t := s2l (← getStr j "t")
+    let cs ← scalarsOf j "c"
+    let tbl := rxTable j
+    let site ← getStr j "site"
+    let (hits, err) := if site = "list" then searchListSite (rxOf tbl) inv m t cs
+                       else searchScan (rxOf tbl) inv m t cs 0
+    pure (Json.mkObj [("hits", natsToJson hits),
+                      ("err", match err with | some e => errToJson e | none => Json.null)])
+  | _ => throw s!"C12: unknown op {op}"
 
 end Ypv.Drv.C12
